@@ -22,7 +22,9 @@ use std::time::{Duration, SystemTime, UNIX_EPOCH};
 use tokio::io::{AsyncRead, AsyncWrite, AsyncWriteExt, ReadBuf};
 
 #[derive(Clone, Debug)]
-pub enum EncKind { Honest, WrongToken, StaleToken, OtherKey, Garbage, GarbageToken, SecretLen(usize) }
+pub enum EncKind { Honest, WrongToken, StaleToken, OtherKey, Garbage, GarbageToken, SecretLen(usize),
+    /// the first n bytes of the issued token (0 = empty), or the token plus one byte (n = 33)
+    TokenPrefix(usize) }
 
 #[derive(Clone, Debug)]
 pub enum Echo { Last, Nth(usize), Wrong, LastPlusOne }
@@ -133,8 +135,24 @@ pub fn result_name(r: &Result<(), passage_protocol::Error>) -> String {
 
 /// runs one scenario against the real code
 pub fn execute(sc: &Scenario, other_key: &rsa::RsaPublicKey) -> Outcome {
-    let rt = tokio::runtime::Builder::new_current_thread().enable_time().start_paused(true).build().unwrap();
-    rt.block_on(execute_async(sc, other_key))
+    // watchdog: under the paused clock a handler that spins (e.g. on a transport that keeps returning
+    // end-of-stream) never lets the runtime go idle; a scenario normally takes milliseconds
+    let (tx, rx) = std::sync::mpsc::channel();
+    let (sc2, key2) = (sc.clone(), other_key.clone());
+    std::thread::spawn(move || {
+        let rt = tokio::runtime::Builder::new_current_thread().enable_time().start_paused(true).build().unwrap();
+        let o = rt.block_on(execute_async(&sc2, &key2));
+        let _ = tx.send(o);
+    });
+    match rx.recv_timeout(Duration::from_secs(60)) {
+        Ok(o) => o,
+        Err(_) => {
+            let steps: Vec<String> = sc.steps.iter().map(|s| { let d = format!("{s:?}"); d.chars().take(120).collect() }).collect();
+            eprintln!("HANG: the connection handler did not settle within 60 s of real time (busy loop or dead-lock) on the scenario secret={} max_len={} steps={:?}", sc.secret.is_some(), sc.max_len, steps);
+            println!("HANG: the connection handler did not settle within 60 s of real time (busy loop or dead-lock) on the scenario steps={:?}", steps);
+            std::process::exit(3);
+        }
+    }
 }
 
 async fn settle() {
@@ -198,6 +216,7 @@ impl Runner<'_> {
                     EncKind::Garbage => (vec![0x5a; 128], e(server_pub, &tok)),
                     EncKind::GarbageToken => (e(server_pub, ss), vec![1, 2, 3]),
                     EncKind::SecretLen(n) => (e(server_pub, &vec![0x42u8; *n]), e(server_pub, &tok)),
+                    EncKind::TokenPrefix(n) => { let mut t = tok.clone(); if *n > t.len() { t.push(0x5a); } else { t.truncate(*n); } (e(server_pub, ss), e(server_pub, &t)) }
                 };
                 for ct in [&sct, &tct] {
                     let pt = passage_protocol::crypto::decrypt(&passage_protocol::crypto::KEY_PAIR.0, ct).ok();
